@@ -710,6 +710,122 @@ fn c11_limit_arithmetic() {
         let r = RawSnap::prepare_item_vacant(MAX_SNAPSHOT_ITEMS, v, &mut buf2, 0);
         assert!(r == Err(BuilderError::TooManyItems));
     }
+    // ... and the last permitted item is accepted
+    let mut m3: BTreeMap<i32, ops::Range<u32>> = Default::default();
+    let mut buf3: Vec<i32> = Vec::new();
+    if let btree_map::Entry::Vacant(v) = m3.entry(1) {
+        let r = RawSnap::prepare_item_vacant(MAX_SNAPSHOT_ITEMS - 1, v, &mut buf3, 0);
+        assert!(r.is_ok());
+    }
+}
+
+// --- the limits end to end, with the two constants scaled down to the container model's capacity
+// (sub-plan C11L: transform snapshot_scaled_limits, MAX_SNAPSHOT_ITEMS = 3, MAX_SNAPSHOT_SIZE = 48) ---
+
+/// serialized snapshot with `n` payload-free items of type 1, ids 0..n
+fn snap_ints_n(n: usize, out: &mut [i32; 12]) -> usize {
+    out[0] = (n * 4) as i32;
+    out[1] = n as i32;
+    let mut i = 0;
+    while i < n {
+        out[2 + i] = (i * 4) as i32;
+        out[2 + n + i] = key(1, i as u16);
+        i += 1;
+    }
+    2 + 2 * n
+}
+
+fn limit_after_accept(snap: &Snap) {
+    assert!(snap.raw.offsets.len() <= MAX_SNAPSHOT_ITEMS);
+    let mut keys = Vec::with_capacity(4);
+    let mut out = [0i32; 16];
+    let written = snap.write_to_ints(&mut keys, &mut out).map(|w| w.len());
+    assert!(written.is_ok());
+    assert!(written.unwrap() * 4 <= MAX_SNAPSHOT_SIZE);
+    core::mem::forget(keys);
+}
+
+#[kani::proof]
+#[kani::unwind(8)]
+fn c11_scaled_limit_items_read() {
+    // exactly the permitted number of items is accepted and can be written out; one more is refused
+    assert!(MAX_SNAPSHOT_ITEMS == 3);
+    let mut words = [0i32; 12];
+    let n = snap_ints_n(3, &mut words);
+    let mut snap = Snap::empty();
+    let mut w = WMask(0);
+    assert!(snap.read_from_ints(&mut w, &words[..n]).is_ok());
+    limit_after_accept(&snap);
+    let mut words4 = [0i32; 12];
+    let n4 = snap_ints_n(4, &mut words4);
+    let mut snap4 = Snap::empty();
+    let r = snap4.read_from_ints(&mut w, &words4[..n4]);
+    assert!(r == Err(Error::TooManyItems));
+    core::mem::forget(snap);
+    core::mem::forget(snap4);
+}
+
+#[kani::proof]
+#[kani::unwind(8)]
+fn c11_scaled_limit_items_delta() {
+    // a full snapshot plus a delta that adds one more item: refused, not accepted beyond the limit
+    assert!(MAX_SNAPSHOT_ITEMS == 3);
+    let mut words = [0i32; 12];
+    let n = snap_ints_n(3, &mut words);
+    let mut from = Snap::empty();
+    let mut w = WMask(0);
+    assert!(from.read_from_ints(&mut w, &words[..n]).is_ok());
+    let id: u16 = kani::any();
+    let delta_ints = [0, 1, 0, 1, id as i32, 0];
+    let mut delta = Delta::new();
+    let mut u = IntUnpacker::new(&delta_ints);
+    assert!(delta.read_from_ints(&mut w, |_| None, &mut u).is_ok());
+    let mut to = Snap::empty();
+    let r = to.read_with_delta(&mut w, &from, &delta);
+    match r {
+        Ok(()) => {
+            // the update hit an existing key
+            assert!(id < 3);
+            limit_after_accept(&to);
+        }
+        Err(ref e) => assert!(*e == Error::TooManyItems && id >= 3),
+    }
+    kani::cover!(r.is_ok());
+    kani::cover!(r.is_err());
+    core::mem::forget(from);
+    core::mem::forget(to);
+    core::mem::forget(delta);
+}
+
+#[kani::proof]
+#[kani::unwind(12)]
+fn c11_scaled_limit_size() {
+    // item sizes around the byte limit: what the builder accepts can be written within the limit,
+    // what it refuses is refused with TooLongSnap; both sides of the boundary occur
+    assert!(MAX_SNAPSHOT_SIZE == 48);
+    let data = [7i32; 10];
+    let mut k = 0;
+    let mut accepted = 0;
+    let mut refused = 0;
+    while k <= 10 {
+        let mut b = Builder::new();
+        match b.add_item(TypeId::Ordinal(2), 1, &data[..k]) {
+            Ok(()) => {
+                let snap = b.finish();
+                limit_after_accept(&snap);
+                core::mem::forget(snap);
+                accepted += 1;
+                assert!(refused == 0);
+            }
+            Err(e) => {
+                assert!(e == BuilderError::TooLongSnap);
+                refused += 1;
+                core::mem::forget(b);
+            }
+        }
+        k += 1;
+    }
+    assert!(accepted >= 1 && refused >= 1);
 }
 
 impl Delta {
